@@ -5,6 +5,7 @@ import (
 	"reflect"
 
 	gcmp "github.com/google/go-cmp/cmp"
+	"github.com/google/go-cmp/cmp/cmpopts"
 )
 
 func Pipe[T any, U any](elem T, f func(T) U) U {
@@ -33,8 +34,10 @@ func Printf1[T any](fmtstr string, arg T) {
 }
 
 // Structural equality. Record fields may be lower case (unexported in go), so compare them too.
+// nil slice and empty slice are the same value for folang.
 var opEqualOpts = []gcmp.Option{
 	gcmp.Exporter(func(reflect.Type) bool { return true }),
+	cmpopts.EquateEmpty(),
 }
 
 func OpEqual[T any](e1 T, e2 T) bool {
